@@ -279,6 +279,7 @@ func TestC07Fault(t *testing.T) {
 	common.Run(t, "C07", "C07Fault", func(t *rapid.T) FaultCase {
 		w := genWorkload(t)
 		w.Retry = true
+		w.RetryReopen = rapid.IntRange(0, 2).Draw(t, "retryReopen") == 0
 		return FaultCase{W: w, Sel: rapid.IntRange(0, 1000).Draw(t, "sel")}
 	}, func(c FaultCase) (res common.Result) {
 		work, err := os.MkdirTemp("", "verif-tracef-")
@@ -315,6 +316,9 @@ func TestC07Fault(t *testing.T) {
 		}
 		v, st2 := Check(calls, dir, c.W.SegSize)
 		res.NonTrivial = st2.StoreLogsErr > 0
+		if st2.StoreLogsErr > 0 && c.W.RetryReopen {
+			res.Classes = append(res.Classes, "storelogs-failed-reopened-retried")
+		}
 		if st2.StoreLogsErr > 0 {
 			res.Classes = append(res.Classes, "storelogs-failed-then-retried")
 		} else {
